@@ -13,6 +13,9 @@ class Adapter:
     module = None      # TLA+ module in spec/env
     has_checker = True
     has_truth = True   # the module defines the Truth interface (Actions/PrefixOK/Complete/Pointless)
+    # the environment's get_reward is a function of instance + actions (it can be called with the freshly reset instance, as the
+    # evaluation classes do); False for environments whose objective is read from the rollout state
+    reward_from_actions = False
     solo_invariants = ("FamilyOK", "C01", "C02a", "C02c", "C03", "PadStays", "PadReward", "Emit")
     properties = ("C01", "C02", "C03", "C04", "C05", "C06")
     multistart = False  # env supports select_start_nodes (C12)
